@@ -2,7 +2,7 @@
    number, takes the operation list of a case (each operation a list of integers) and
    returns one integer list per operation, in the same canonical form the Go harness
    prints for the implementation. *)
-From Minter Require Import Base Consts Pool Float Orders Govern Persist PersistGen Rewards.
+From Minter Require Import Base Consts Pool Float Orders Govern Persist PersistGen Rewards Ledger LedgerRun.
 Open Scope Z_scope.
 
 Definition enc1 (z : Z) : list Z := [z].
@@ -205,6 +205,7 @@ Definition dispatch (model : Z) (ops : list (list Z)) : list (list Z) :=
   | 4 => map run_govern_op ops
   | 5 => run_states appdb_step (empty_disk, empty_mem) ops
   | 6 => map run_rewards_op ops
+  | 7 => run_states ledger_step ledger_init ops
   | _ => map (fun _ => [-1]) ops
   end.
 
